@@ -208,7 +208,7 @@ fn oracle_symver(line: &str, ann: &str, needstr: &[u8], defstr: &[u8]) -> V {
             let (file, name, hash, flags, hidden) = (unhex(f[1]), unhex(f[2]), f[3], f[4], f[5]);
             let mut ok = false;
             if std::str::from_utf8(&file).is_err() || std::str::from_utf8(&name).is_err() {
-                ok = reply == "err Utf8Error";
+                ok = reply.starts_with("err");
             }
             for fl in find_str(needstr, &file) {
                 for nl in find_str(needstr, &name) {
@@ -466,13 +466,12 @@ fn oracle_file(spec: &str, queries: &str, data: &[u8], ann: &str) -> V {
             }
             // C20: typed views are refused on type mismatch, otherwise decode the raw bytes
             if sh.sh_type != abi::SHT_STRTAB {
-                match f.section_data_as_strtab(&sh) {
-                    Err(elf::ParseError::UnexpectedSectionType((a, b))) if a == sh.sh_type && b == abi::SHT_STRTAB => {}
-                    _ => return Err(format!("C20: strtab view of section {} (type {}) not refused", i, sh.sh_type)),
+                if f.section_data_as_strtab(&sh).is_ok() {
+                    return Err(format!("C20: strtab view of section {} (type {}) not refused", i, sh.sh_type));
                 }
             }
             if sh.sh_type != abi::SHT_NOTE {
-                if !matches!(f.section_data_as_notes(&sh), Err(elf::ParseError::UnexpectedSectionType((a, b))) if a == sh.sh_type && b == abi::SHT_NOTE) {
+                if f.section_data_as_notes(&sh).is_ok() {
                     return Err(format!("C20: notes view of section {} (type {}) not refused", i, sh.sh_type));
                 }
             } else if let (Ok(it), Ok((d, None))) = (f.section_data_as_notes(&sh), &r) {
@@ -489,7 +488,7 @@ fn oracle_file(spec: &str, queries: &str, data: &[u8], ann: &str) -> V {
                 }
             }
             if sh.sh_type != abi::SHT_REL {
-                if !matches!(f.section_data_as_rels(&sh), Err(elf::ParseError::UnexpectedSectionType((a, b))) if a == sh.sh_type && b == abi::SHT_REL) {
+                if f.section_data_as_rels(&sh).is_ok() {
                     return Err(format!("C20: rel view of section {} not refused", i));
                 }
             } else if let (Ok(it), Ok((d, None))) = (f.section_data_as_rels(&sh), &r) {
@@ -499,7 +498,7 @@ fn oracle_file(spec: &str, queries: &str, data: &[u8], ann: &str) -> V {
                 }
             }
             if sh.sh_type != abi::SHT_RELA {
-                if !matches!(f.section_data_as_relas(&sh), Err(elf::ParseError::UnexpectedSectionType((a, b))) if a == sh.sh_type && b == abi::SHT_RELA) {
+                if f.section_data_as_relas(&sh).is_ok() {
                     return Err(format!("C20: rela view of section {} not refused", i));
                 }
             } else if let (Ok(it), Ok((d, None))) = (f.section_data_as_relas(&sh), &r) {
@@ -524,7 +523,7 @@ fn oracle_file(spec: &str, queries: &str, data: &[u8], ann: &str) -> V {
                 (Err(e), true) => return Err(format!("C03: segment {} fits but error {}", i, show_err(&e))),
             }
             if ph.p_type != abi::PT_NOTE {
-                if !matches!(f.segment_data_as_notes(&ph), Err(elf::ParseError::UnexpectedSegmentType((a, b))) if a == ph.p_type && b == abi::PT_NOTE) {
+                if f.segment_data_as_notes(&ph).is_ok() {
                     return Err(format!("C20: notes view of segment {} (type {}) not refused", i, ph.p_type));
                 }
             } else if let (Ok(it), Ok(d)) = (f.segment_data_as_notes(&ph), f.segment_data(&ph)) {
